@@ -367,14 +367,14 @@ package internal
 //@ fnparam TrimmedCSVSeq$1.yield(p)
 //@   pure
 //@ func TrimmedCSVSeq$1
-//@   property C12 C06 C02 C18
+//@   property C12 C06 C02 C18 C01 C13
 //@   requires s != nil && yield != nil
 //@   assigns *
 //@   loop 0 invariant *s == old(*s) && 0 <= rangeint_iter && rangeint_iter < len(*s)
 //@   loop 0 invariant inQuotes == csvQ(*s, rangeint_iter)                                           # name: splits-only-outside-quoted-strings
 //@   loop 0 invariant escape == csvE(*s, rangeint_iter)                                             # name: backslash-escapes-the-next-byte
 //@   loop 0 decreases len(*s) - rangeint_iter                                                       # name: tokenizer-terminates   props: C10 C12
-//@   loop 0 return-requires stopped                                                                 # name: scan-ends-early-only-when-the-consumer-stops-it   props: C12 C18 C06 C02
+//@   loop 0 return-requires stopped                                                                 # name: scan-ends-early-only-when-the-consumer-stops-it   props: C12 C18 C06 C02 C01 C13
 //@ func TrimmedCSVSeq
 //@   trusted
 //@   pure
@@ -386,30 +386,46 @@ package internal
 //@   ensures valid ==> seq != nil && seqIsCSV(seq, string(s))                # name: yields-the-listed-fields
 
 // ---- logging: reads only (C10) ------------------------------------------------------
+// logCache (internal/log.go) calls mp.MakeMisc() whenever the interface value mp is not nil and
+// the handler is enabled for the record's level; (MiscFunc).MakeMisc calls the function value. An
+// interface holding a nil MiscFunc is not nil, so it must not be handed to a Log* method.
+//@ spec func miscCallable(mp MiscProvider) bool = mp == nil || !typeis(mp, MiscFunc) || as(mp, MiscFunc) != nil
+//@ func (MiscFunc).MakeMisc
+//@   property C10
+//@   requires f != nil
+//@   assigns *
 //@ func (*Logger).LogCacheHit
 //@   trusted
 //@   pure
+//@   requires miscCallable(mp)                                                # name: log-detail-provider-can-be-called   props: C10
 //@ func (*Logger).LogCacheMiss
 //@   trusted
 //@   pure
+//@   requires miscCallable(mp)                                                # name: log-detail-provider-can-be-called   props: C10
 //@ func (*Logger).LogCacheStale
 //@   trusted
 //@   pure
+//@   requires miscCallable(mp)                                                # name: log-detail-provider-can-be-called   props: C10
 //@ func (*Logger).LogCacheStaleIfError
 //@   trusted
 //@   pure
+//@   requires miscCallable(mp)                                                # name: log-detail-provider-can-be-called   props: C10
 //@ func (*Logger).LogCacheStaleRevalidate
 //@   trusted
 //@   pure
+//@   requires miscCallable(mp)                                                # name: log-detail-provider-can-be-called   props: C10
 //@ func (*Logger).LogCacheRevalidated
 //@   trusted
 //@   pure
+//@   requires miscCallable(mp)                                                # name: log-detail-provider-can-be-called   props: C10
 //@ func (*Logger).LogCacheBypass
 //@   trusted
 //@   pure
+//@   requires miscCallable(mp)                                                # name: log-detail-provider-can-be-called   props: C10
 //@ func (*Logger).LogCacheError
 //@   trusted
 //@   pure
+//@   requires miscCallable(mp)                                                # name: log-detail-provider-can-be-called   props: C10
 
 // ---- Age and status fields (C11) ----------------------------------------------------
 //@ spec func secsOf(d time.Duration) int = int(d / sec) # opaque
@@ -604,10 +620,11 @@ package internal
 //@   ensures (method == "GET" || method == "HEAD" || method == "OPTIONS" || method == "TRACE") ==> !result   # name: safe-core
 
 //@ func FixDateHeader
-//@   property C01
+//@   property C01 C11
 //@   requires h != nil
 //@   assigns map(h)
 //@   ensures validHTTPTime(old(hget(h, "Date"))) && ns(httpTime(old(hget(h, "Date")))) != 0 ==> mapUnchanged(h) && !result     # name: valid-date-kept
+//@   ensures !(validHTTPTime(old(hget(h, "Date"))) && ns(httpTime(old(hget(h, "Date")))) != 0) && httpYear(receivedAt) ==> result && validHTTPTime(hget(h, "Date")) && ns(httpTime(hget(h, "Date"))) <= ns(receivedAt) && ns(receivedAt) - ns(httpTime(hget(h, "Date"))) < sec     # name: missing-date-becomes-the-reception-instant
 
 // ---- C13: stale-if-error --------------------------------------------------------------
 // age of the stored response at clock reading t, from a Freshness value
@@ -1104,18 +1121,18 @@ package internal
 // Round trip: whatever s is, jsonEnc(s) is either s itself and not marked (fromJSONSafe returns it
 // as written) or escOf(s) (fromJSONSafe returns s by decoding-undoes-encoding).
 //@ lemma index-strings-round-trip: forall s string :: (jsonEnc(s) == s && !hasPfx(jsonEnc(s), "\x00b64:")) || jsonEnc(s) == escOf(s)
-//@   property C04 C09 C19
+//@   property C03 C04 C09 C19
 //@ func toJSONSafe
-//@   property C04 C09 C19
+//@   property C03 C04 C09 C19
 //@   pure
 //@   ensures result == jsonEnc(s)                                             # name: escapes-exactly-what-json-would-corrupt
 //@   ensures validUTF8(result)                                                # name: written-text-survives-encoding-json
 //@ func fromJSONSafe
-//@   property C04 C09 C19
+//@   property C03 C04 C09 C19
 //@   pure
 //@   ensures !hasPfx(s, "\x00b64:") ==> result0 == s && result1 == nil        # name: plain-strings-read-as-written
 //@   ensures forall x string :: s == escOf(x) ==> result0 == x && result1 == nil                  # name: decoding-undoes-encoding
 //@ func (ResponseRef).MarshalJSON
-//@   property C04 C09 C19
+//@   property C03 C04 C09 C19
 //@   pure
 //@   loop 0 invariant forall k string :: has(out.VaryResolved, k) ==> validUTF8(k) && validUTF8(get(out.VaryResolved, k))
